@@ -10,7 +10,7 @@ import random
 
 from hv import core
 from hv.engine_harness import Harness, program_lines
-from hv.props.c01 import C01, SCALES, gen_program
+from hv.props.c01 import C01, SCALES, gen_program, shift_start
 
 
 def gen_value(rng: random.Random):
@@ -240,7 +240,11 @@ class C02(C01):
 
     def generate(self, rng, i, tier):
         prog = gen_future_program(rng)
-        prog["family"] = "futures/" + ("auto" if prog["end"] is None else "end") + "/" + prog["loop"]
+        started = rng.random() < 0.25
+        if started:
+            shift_start(rng, prog)
+        prog["family"] = ("futures/" + ("auto" if prog["end"] is None else "dur" if prog.get("dur") is not None else "end") + "/" + prog["loop"]
+                          + ("/start" if started else ""))
         return prog
 
     def nontrivial_key(self, case, impl_out):
